@@ -532,16 +532,18 @@ def check_c10(ctx):
     if ctx.replay:
         write_evidence(ctx, "fault_enumeration", {"evaluations": nfiles, "distinct_nontrivial": 2, "rule": "replay of saved inputs only", "samples": [open(ctx.replay).read()]}, HIST_ASSUMPTIONS)
         return
-    shards, cases, maxlen, watchdog = (5, 100, 60, 1800) if ctx.tier == "quick" else (16, sc(1500), 120, 10800)
+    shards, cases, maxlen, watchdog = (5, 100, 60, 1800) if ctx.tier == "quick" else (16, sc(240), 80, 10800)
     work = os.path.join(VERIF, ".work", "C10-%d" % os.getpid())
     os.makedirs(work, exist_ok=True)
     jobs = []
     for name, b in sorted(bins.items()):
-        for s in range(shards):
+        # thorough: the sanitizer and the events build (each several times the cost) get a third of the shards
+        nshards = max(2, shards // 3) if ctx.tier == "thorough" and name in ("asan", "chk-events") else shards
+        for s in range(nshards):
             world = "WOne" if s % 4 == 3 else "WMix"
             seed = ctx.sub_seed("c10", name, s)
             base = os.path.join(work, "%s-%d" % (name, s))
-            jobs.append(((name, s, world, seed), [b, "c10", "--world", world, "--cases", str(cases), "--len", str(maxlen), "--seed", str(seed), "--max-k", "16" if ctx.tier == "quick" else "64",
+            jobs.append(((name, s, world, seed), [b, "c10", "--world", world, "--cases", str(cases), "--len", str(maxlen), "--seed", str(seed), "--max-k", "16" if ctx.tier == "quick" else "32",
                                                   "--out", base + ".json", "--fail-out", base + ".ops", "--last-case", base + ".last"]))
     res = run_many(jobs, watchdog)
     tot = {"cases": 0, "runs": 0, "points": 0, "fired": 0, "by_site": [0, 0, 0], "nontrivial": set(), "samples": [], "collateral": {}}
@@ -592,7 +594,7 @@ def check_c10(ctx):
         "injection_points_tried": tot["points"],
         "injection_points_fired": tot["fired"],
         "injection_points_by_site": {"closure": tot["by_site"][0], "clone": tot["by_site"][1], "drop": tot["by_site"][2]},
-        "points_per_op_and_site": "all when <= K, else K evenly spread incl. first and last; K = 16 (quick) / 64 (thorough)",
+        "points_per_op_and_site": "all when <= K, else K evenly spread incl. first and last; K = 16 (quick) / 32 (thorough)",
         "collateral": tot["collateral"],
         "builds": sorted(bins.keys()),
         "fixed_scenarios": "with_capacity(2^24 + 1) per archetype panics with 'capacity may not exceed' and builds nothing; leaked (mem::forget) shared / mutable guard on every column of every archetype, then destroy at every dense position: whether or not the destroy panics, every entity is fully present or fully absent, iteration and the representation invariant are intact, world drop drops nothing twice",
